@@ -47,8 +47,12 @@ impl<'a> Dfa<'a> {
         for cluster in grapheme_clusters {
             dfa.insert(cluster);
         }
+        #[cfg(grex_verif)]
+        crate::verif::record("trie", || dfa.verif_snapshot());
         if is_minimized {
             dfa.minimize();
+            #[cfg(grex_verif)]
+            crate::verif::record("min", || dfa.verif_snapshot());
         }
         dfa
     }
@@ -72,6 +76,32 @@ impl<'a> Dfa<'a> {
 
     pub(crate) fn is_final_state(&self, state: State) -> bool {
         self.final_state_indices.contains(&state.index())
+    }
+
+    #[cfg(grex_verif)]
+    pub(crate) fn verif_snapshot(&self) -> String {
+        use petgraph::visit::{EdgeRef, IntoEdgeReferences};
+        let mut finals = self.final_state_indices.iter().copied().collect_vec();
+        finals.sort_unstable();
+        format!(
+            "n={} init={} finals={} alphabet={} edges={}",
+            self.graph.node_count(),
+            self.initial_state.index(),
+            finals.iter().join(","),
+            self.alphabet
+                .iter()
+                .map(|g| crate::verif::ser_grapheme(g, self.config))
+                .join(""),
+            self.graph
+                .edge_references()
+                .map(|e| format!(
+                    "{}>{}:{}",
+                    e.source().index(),
+                    e.target().index(),
+                    crate::verif::ser_grapheme(e.weight(), self.config)
+                ))
+                .join(" ")
+        )
     }
 
     fn new(config: &'a RegExpConfig) -> Self {
